@@ -123,6 +123,25 @@ RetoggleR == \E c \in {Pick(Chains)} : \E d \in {Pick(Chains \ {c})} : Retoggle(
 SendFakeR == \E c \in {Pick(Chains)} : \E d \in {Pick(Chains \ {c})} : \E a \in {Pick(Amts)} : SendFake(c, d, a)
 NewClientR == \E c \in {Pick(Chains)} : \E d \in {Pick(Chains \ {c})} : \E nm \in {Pick({"prefix", "ext"})} : NewClient(c, d, nm)
 
+(* supply limits: governance switches them on and off (admissible and inadmissible parameters), blocks lie far apart *)
+LimOn == {cx \in Chains \X (Chains \cup {"own"}) : cx[2] \in LimKeys(cx[1]) /\ lim[cx[1]][cx[2]].on}
+EnableR  == \E c \in {Pick(Chains)} : \E x \in {Pick(LimKeys(c))} : \E t \in {Pick(LimitSets)} : EnableLimit(c, x, t)
+DisableR == IF LimOn # {} /\ Pick(1..3) > 1 THEN \E cx \in {Pick(LimOn)} : DisableLimit(cx[1], cx[2])
+            ELSE \E c \in {Pick(Chains)} : \E x \in {Pick(LimKeys(c))} : DisableLimit(c, x)
+ElapseR  == \E c \in {Pick(Chains)} : IF h[c] < MaxH THEN Elapse(c) ELSE EnableR
+(* a transfer towards a chain that limits the token it will receive *)
+SendLimitedR ==
+  /\ LimOn # {}
+  /\ \E cx \in {Pick(LimOn)} : \E s \in {IF cx[2] = "own" THEN Pick(Others(cx[1])) ELSE cx[2]} :
+       \E k \in {IF cx[2] = "own" THEN "back" ELSE "fwd"} : \E a \in {Pick(Amts)} : \E cl \in {Pick(Calls \ (IF k = "fwd" THEN {} ELSE {"nestok"}))} :
+          seq[s][cx[1]] <= MaxSeq /\ Send(s, cx[1], k, a, cl, 0)
+Progress == CommitUseful \/ UpdateUseful \/ RecvUseful \/ AckUseful
+LimNext == \E r \in {Pick(1..10)} :
+             IF r <= 2 THEN (IF Pick(1..4) = 1 THEN DisableR ELSE IF Pick(1..3) = 1 THEN ElapseR ELSE EnableR)
+             ELSE IF r <= 4 THEN (IF LimOn # {} THEN SendLimitedR \/ CommitR ELSE SendR \/ SendBackR \/ CommitR)
+             ELSE IF r <= 9 THEN (IF ENABLED Progress THEN Progress ELSE SendR \/ SendBackR \/ CommitR \/ UpdateGood)
+             ELSE (RecvDup \/ AckDup \/ RecvForged \/ AckForgedCode \/ RecvGood \/ AckGood \/ UpdateR)
+
 Useful  == CommitUseful \/ UpdateUseful \/ RecvUseful \/ AckUseful \/ SendR \/ SendBackR \/ SendViaR \/ SendBadCbR \/ SendTwoR
 Hostile == SendR \/ CommitR \/ UpdateR \/ UpdateForged \/ RecvGood \/ RecvR \/ RecvDup \/ AckGood \/ AckR \/ RecvForged \/ AckForged \/ AckForgedCode \/ AckDup \/ RetoggleR \/ NewClientR \/ SendFakeR \/ RecvRev0 \/ AckRev0 \/ RotateR
 
@@ -151,7 +170,8 @@ LongNext ==
   ELSE seq[LongSrc][LongDst] <= MaxSeq /\ Send(LongSrc, LongDst, "fwd", 1, "none", 0)
 
 MNext == /\ Len(hist) < Depth
-         /\ IF UsefulPct > 10 THEN LongNext     \* UsefulPct = 11: the long-history generator
+         /\ IF LimitSets # {} THEN LimNext       \* the supply-limit generator
+            ELSE IF UsefulPct > 10 THEN LongNext     \* UsefulPct = 11: the long-history generator
             ELSE \E r \in {Pick(1..10)} : IF r <= UsefulPct THEN Useful ELSE Hostile
          /\ Log
 
